@@ -578,6 +578,10 @@ def c09(ctx):
                 ph, s = gen.rand_phrase(rng, n), cheap_setting(m, rng)
                 cmds.append("obj 0 %d 1" % rng.randrange(16))
                 cmds.append("%s 0 %s %s" % (rng.choice(("crypt_rn", "crypt_r")), hx(ph), hx(s)))
+            for s in gen.block_boundary_settings(m, rng):
+                for n in (8, 40, 64):
+                    cmds.append("obj 0 %d 1" % rng.randrange(16))
+                    cmds.append("crypt_rn 0 %s %s 32768" % (hx(gen.rand_phrase(rng, n)), hx(s)))
             ph = gen.rand_phrase(rng, 24)
             cmds.append("crypt - %s %s" % (hx(ph), hx(cheap_setting(m, rng))))
             cmds.append("crypt_ra 0 %s %s" % (hx(ph), hx(cheap_setting(m, rng))))
